@@ -149,7 +149,86 @@ func checkC16(c *Ctx) (string, []string) {
 			}
 		})
 		if look == nil {
-			c.Bad("C16.store", "merklizeWithKeyCache · callback arms", cb.Pos(), "the callback does not consult GetLeafHash")
+			// the callback may delegate to GetOrComputeLeafHash(cache, key, value, compute): then that method is the protocol and compute must be the leaf encoder
+			var del *ssa.Call
+			allInstrs(cb, func(in ssa.Instruction) {
+				if call, ok := in.(*ssa.Call); ok && call.Call.StaticCallee() == goc {
+					del = call
+				}
+			})
+			okDel := false
+			why := "the callback does not consult GetLeafHash"
+			if del != nil && len(del.Call.Args) == 4 {
+				okDel = abbr(exprStr(del.Call.Args[1], o)) == kp && abbr(exprStr(del.Call.Args[2], o)) == vp
+				why = "the callback delegates to GetOrComputeLeafHash with other arguments than its own key and value"
+				var comp *ssa.Function
+				carg := stripConv(resolveFreeVar(del.Call.Args[3], cb, mk))
+				if u, isU := carg.(*ssa.UnOp); isU {
+					if a, isA := u.X.(*ssa.Alloc); isA {
+						if sv := uniqueStore(a); sv != nil {
+							carg = stripConv(sv)
+						}
+					}
+				}
+				switch x := carg.(type) {
+				case *ssa.MakeClosure:
+					comp, _ = x.Fn.(*ssa.Function)
+					comp = boundTarget(comp)
+				case *ssa.Function:
+					comp = x
+				}
+				if okDel && comp != nil && len(comp.Params) >= 2 {
+					np2 := len(comp.Params)
+					want := fmt.Sprintf("merklization.EncodeLeafNodeHash(p%d, p%d)", np2-2, np2-1)
+					rs := abbrMap(returnShapesO(comp, o))["ret"]
+					okDel = len(rs) == 1 && rs[0] == want
+					why = fmt.Sprintf("the compute function handed to GetOrComputeLeafHash returns %v, not %s", rs, want)
+				} else if okDel {
+					okDel, why = false, "the compute function handed to GetOrComputeLeafHash could not be resolved"
+				}
+				// the value returned is the delegate's result
+				if okDel {
+					rs := abbrMap(returnShapesO(cb, o))["ret"]
+					okDel = len(rs) == 1 && rs[0] == abbr(exprStr(del, o))
+					why = "the callback does not return GetOrComputeLeafHash's result"
+				}
+			}
+			if okDel {
+				// GetOrComputeLeafHash itself follows the protocol
+				G := K + "GetLeafHash(p0, p1, p2)"
+				bad := ""
+				for hit := int64(0); hit <= 1 && bad == ""; hit++ {
+					var puts []string
+					r, ok := runWithAtoms(goc, o, func(s string) (int64, bool) {
+						if s == G+"#2" {
+							return hit, true
+						}
+						return 0, false
+					}, func(in ssa.Instruction) {
+						if ci, ok := in.(ssa.CallInstruction); ok && calleeFunc(ci) == put {
+							var as []string
+							for _, a := range ci.Common().Args {
+								as = append(as, abbr(exprStr(a, o)))
+							}
+							puts = append(puts, strings.Join(as, ", "))
+						}
+					})
+					if !ok || len(retResults(r)) != 1 {
+						bad = "GetOrComputeLeafHash's arms are selected by something other than the lookup's hit flag"
+						break
+					}
+					alts := expandAlts(abbr(exprStr(retResults(r)[0], o)))
+					if hit == 1 && (len(puts) != 0 || !contains(alts, G+"#0")) {
+						bad = fmt.Sprintf("on a hit GetOrComputeLeafHash returns %v and stores %v", alts, puts)
+					}
+					if hit == 0 && (len(puts) != 1 || puts[0] != "p0, p1, "+G+"#1, p3(p1, p2)" || !contains(alts, "p3(p1, p2)")) {
+						bad = fmt.Sprintf("on a miss GetOrComputeLeafHash stores %v and returns %v", puts, alts)
+					}
+				}
+				okDel, why = bad == "", bad
+			}
+			c.Check(okDel, "C16.store", "merklizeWithKeyCache · callback arms", cb.Pos(), "delegates to GetOrComputeLeafHash(cache, key, value, leaf encoder), which returns the cached hash on a hit and stores then returns the computed one on a miss", why)
+			c.OK("C16.store", "merklizeWithKeyCache · callback stores", cb.Pos(), "PutLeafHash arguments checked inside GetOrComputeLeafHash")
 		} else {
 			G := abbr(exprStr(look, o))
 			cache := abbr(exprStr(look.Call.Args[0], o))
